@@ -65,7 +65,6 @@ type kaclient struct {
 	fr       *http2.Framer
 	wmu      sync.Mutex
 	closed   bool
-	reported bool
 	streams  []*transport.ClientStream
 	peerDone chan struct{}
 	czCh     *channelz.Channel
